@@ -49,6 +49,8 @@ fn check_install(g: &PatchGuard, src_off: usize, jit_off: Option<usize>, jit_add
         let j: usize = kani::any();
         kani::assume(j < n);
         assert!(g_orig(g)[j] == SNAPSHOT[src_off + j], "OBL:C02.save.bytes: saved bytes are the bytes that were there before the patch");
+        // C11: the trampoline is requested near the function whose entry branch has to reach it
+        assert!(ALLOC_ANCHOR == base + src_off, "OBL:C11.alloc.anchor: the trampoline is allocated near the function being patched (the entry branch must reach it), not near anything else");
         // C12.own
         assert!(g_jit(g) == jit_addr && g_jit_size(g) == jit_len && jit_len == os::LAST_MMAP_LEN, "OBL:C12.own: the guard owns exactly the mapping (address, length) that mmap returned for this installation");
         assert!(os::live_count() == 1 && os::N_MMAP_OK == 1 && os::N_MUNMAP == 0, "OBL:C12.one-mapping: one mapping per installation, none released early");
